@@ -731,7 +731,7 @@ func (vc *VC) resolveModifies(env *SpecEnv, clauses []*Clause) (items []frameIte
 					specErr("modifies *%s: not a pointer", it.Text)
 				}
 				if pt, isPtr := tv.t.Underlying().(*types.Pointer); isPtr && !vc.eng.wholeObjectType(pt.Elem()) {
-					items = append(items, frameItem{kind: "range", ref: p.ref, lo: p.idx, hi: add(p.idx, width(pt.Elem())), text: it.Text})
+					items = append(items, frameItem{kind: "range", ref: p.ref, lo: p.idx, hi: add(p.idx, width(pt.Elem())), text: it.Text, etype: pt.Elem()})
 				} else if isPtr {
 					items = append(items, frameItem{kind: "obj", ref: p.ref, text: it.Text, otype: pt.Elem()})
 				} else {
